@@ -5,7 +5,7 @@ open SSV SSV.Router
 /-
 Line protocol of ssv_c09 (one answer line per input line):
   reset
-  env geoip=0 resolvers=r1,r2 tcp=a,b udp=a servers=s0,s1 dsets=d1 psets=p1 deftcp=x defudp=y
+  env geoip=0 resolvers=r1,r2 rmap=r1,r2 tcp=a,b udp=a servers=s0,s1 dsets=d1 psets=p1 deftcp=x defudp=y
   res <resolver> <domain> a4:<n> | a6:<n> | l | f:<tag>       resolver behaviour (default: l = ErrLookup)
   dset <name> <domain,...>                                   domains of the universe that the named set matches
   pset <name> <prefix,...>                                   prefixes of the named prefix set (4:<n>/<bits>)
@@ -13,7 +13,7 @@ Line protocol of ssv_c09 (one answer line per input line):
         ex=.. exs=.. eg=.. tx=.. txs=.. tg=.. flags=<letters>
   build                                                     -> ok | err <class>
   req net=tcp srv=0 user=u src=4:<n> sport=1 dip=4:<n> | ddom=<name> dport=80
-                                                            -> client <name> | rejected | err <class> | panic
+                                                            -> client <name> @<route> | rejected @<route> | err <class> | panic      (fpr/tpr: the range string in hex)
 -/
 
 structure St where
@@ -52,14 +52,9 @@ def parsePrefix (s : String) : Option Prefix :=
     pure ⟨ip, bits⟩
   | _ => none
 
-def parsePortItem (s : String) : Option PortItem :=
-  match s.splitOn "-" with
-  | [a] => a.toNat?.map PortItem.single
-  | [a, b] => do
-    let x ← a.toNat?
-    let y ← b.toNat?
-    pure (.range x y)
-  | _ => none
+/-- a port-range string travels as hex (it may hold any bytes); absent = empty -/
+def parseRangeStr (s : String) : Option (List UInt8) :=
+  if s.isEmpty then some [] else ofHex? s
 
 def parseLookupRes (s : String) : Option LookupRes :=
   if s == "l" then some .errLookup
@@ -78,8 +73,8 @@ def parseRoute (kvs : List (String × String)) : Option RouteConfig := do
   let f (c : Char) : Bool := flags.contains c
   let fp ← allSome ((splitComma (g "fp")).map String.toNat?)
   let tp ← allSome ((splitComma (g "tp")).map String.toNat?)
-  let fpr ← allSome ((splitComma (g "fpr")).map parsePortItem)
-  let tpr ← allSome ((splitComma (g "tpr")).map parsePortItem)
+  let fpr ← parseRangeStr (g "fpr")
+  let tpr ← parseRangeStr (g "tpr")
   let fx ← allSome ((splitComma (g "fx")).map parsePrefix)
   let ex ← allSome ((splitComma (g "ex")).map parsePrefix)
   let tx ← allSome ((splitComma (g "tx")).map parsePrefix)
@@ -145,7 +140,7 @@ def stepC09 (st : St) (line : String) : St × String :=
   | "env" :: toks =>
     let g := lookupKV (toks.map kv)
     ({ st with
-        env := { hasGeoip := g "geoip" == "1", resolvers := splitComma (g "resolvers"), tcpClients := splitComma (g "tcp"),
+        env := { hasGeoip := g "geoip" == "1", resolvers := splitComma (g "resolvers"), resolverMap := splitComma (g "rmap"), tcpClients := splitComma (g "tcp"),
                  udpClients := splitComma (g "udp"), servers := splitComma (g "servers"), domSets := splitComma (g "dsets"),
                  pfxSets := splitComma (g "psets") },
         cfg := { st.cfg with defaultTCPClientName := g "deftcp", defaultUDPClientName := g "defudp" } }, "ok")
@@ -170,7 +165,11 @@ def stepC09 (st : St) (line : String) : St × String :=
     | .error e => ({ st with router := none }, s!"err {buildErrName e}")
   | "req" :: toks =>
     match st.router, parseReq (toks.map kv) with
-    | some r, some q => (st, resName (getClient st.params r q))
+    | some r, some q =>
+      (st, resName (getClient st.params r q) ++
+        (match matchedRoute st.params r q with
+         | some n => s!" @{n}"
+         | none => ""))
     | none, _ => (st, "no-router")
     | _, none => (st, "bad-op")
   | _ => (st, "bad-op")
